@@ -1486,9 +1486,43 @@ theorem one_div_fin_ne_nan (x : ℝ) : NumOps.div (NumOps.one : XR) (fin x) ≠ 
     rw [one_eq, div_zero_of_pos one_pos]; simp
   · rw [one_eq, div_fin_fin_of_ne _ hx]; simp
 
-theorem harmonic_ciMean_ok_noNaN (crit : Crit XR) (g : Harmonic XR) (conf : Confidence XR)
+/-- `+∞` or a strictly positive finite number -/
+def PosOrInf (x : XR) : Prop := x = pinf ∨ ∃ r : ℝ, x = fin r ∧ 0 < r
+
+theorem PosOrInf.ne_nan {x : XR} (h : PosOrInf x) : x ≠ nan := by
+  rcases h with rfl | ⟨r, rfl, _⟩ <;> simp
+
+/-- every bound is `+∞` or a strictly positive finite number -/
+def PosIv : Interval XR → Prop
+  | .twoSided lo hi => PosOrInf lo ∧ PosOrInf hi
+  | .upper lo => PosOrInf lo
+  | .lower hi => PosOrInf hi
+
+theorem PosIv.noNaN {i : Interval XR} (h : PosIv i) : NoNaN i := by
+  cases i <;> simp only [PosIv, NoNaN] at *
+  · exact ⟨h.1.ne_nan, h.2.ne_nan⟩
+  · exact h.ne_nan
+  · exact h.ne_nan
+
+/-- `Harmonic.recipBound` of a finite reciprocal-space bound: `1/x` when `x > 0`, `+∞` otherwise -/
+theorem recipBound_fin (x : ℝ) :
+    Harmonic.recipBound (fin x) = if 0 < x then fin (1 / x) else pinf := by
+  unfold Harmonic.recipBound
+  by_cases hx : 0 < x
+  · simp [hx, hx.ne']
+  · simp [hx]
+
+theorem recipBound_fin_posOrInf (x : ℝ) : PosOrInf (Harmonic.recipBound (fin x)) := by
+  rw [recipBound_fin]
+  by_cases hx : 0 < x
+  · rw [if_pos hx]; exact Or.inr ⟨1 / x, rfl, one_div_pos.mpr hx⟩
+  · rw [if_neg hx]; exact Or.inl rfl
+
+/-- an `Ok` of `Harmonic::ci_mean` on `XR` (finite critical values): every bound is `+∞` or a
+    strictly positive finite number -/
+theorem harmonic_ciMean_ok_posIv (crit : Crit XR) (g : Harmonic XR) (conf : Confidence XR)
     (hc : ∀ r, Scalar.isFinite (crit r) = true) {i : Interval XR}
-    (h : Harmonic.ciMean crit g conf = .ok i) : NoNaN i := by
+    (h : Harmonic.ciMean crit g conf = .ok i) : PosIv i := by
   unfold Harmonic.ciMean at h
   obtain ⟨j, hj, h⟩ := Outcome.bind_eq_ok h
   obtain ⟨hf, k1, k2, k3⟩ := arith_ciMean_ok_finIv crit g.recip conf.flipped hc hj
@@ -1498,13 +1532,18 @@ theorem harmonic_ciMean_ok_noNaN (crit : Crit XR) (g : Harmonic XR) (conf : Conf
   · obtain ⟨a, b, rfl, rfl, hab⟩ := hf
     simp only [Interval.lowX, Interval.highX] at h
     obtain ⟨rfl, _⟩ := (intervalOfKind_eq_ok h).1 rfl
-    exact ⟨one_div_fin_ne_nan b, one_div_fin_ne_nan a⟩
+    exact ⟨recipBound_fin_posOrInf b, recipBound_fin_posOrInf a⟩
   · obtain ⟨b, rfl⟩ := hf
     simp only [intervalOfKind, Interval.highX, Interval.newUpper, Outcome.ok.injEq] at h
-    rw [← h]; exact one_div_fin_ne_nan b
+    rw [← h]; exact recipBound_fin_posOrInf b
   · obtain ⟨a, rfl⟩ := hf
     simp only [intervalOfKind, Interval.lowX, Interval.newLower, Outcome.ok.injEq] at h
-    rw [← h]; exact one_div_fin_ne_nan a
+    rw [← h]; exact recipBound_fin_posOrInf a
+
+theorem harmonic_ciMean_ok_noNaN (crit : Crit XR) (g : Harmonic XR) (conf : Confidence XR)
+    (hc : ∀ r, Scalar.isFinite (crit r) = true) {i : Interval XR}
+    (h : Harmonic.ciMean crit g conf = .ok i) : NoNaN i :=
+  (harmonic_ciMean_ok_posIv crit g conf hc h).noNaN
 
 theorem finish_fin {conf : Confidence XR} {m s : ℝ} {i : Interval XR}
     (h : Proportion.finish conf (fin m) (fin s) = .ok i) : FinIv i := by
@@ -1702,6 +1741,54 @@ theorem ciIndices_ok :
   simp only [hr, hw, Outcome.bind_ok, Interval.toPair]
   simp [Quantile.index]
   norm_num
+
+/-- reciprocal-space state after the reciprocals `1, 2` (data `1, 1/2`): sum 3, sum of squares 5 -/
+def r12 : Arith XR := ⟨⟨XR.fin 3, XR.fin 0⟩, ⟨XR.fin 5, XR.fin 0⟩, 2⟩
+
+theorem r12_mean : r12.mean = XR.fin (3/2) := by
+  simp [r12, Arith.mean, Kahan.value]
+
+theorem r12_stdDev : r12.stdDev = XR.fin (Real.sqrt (1/2)) := by
+  have h3 : ¬ ((5 : ℝ) < 3 / 2 * 3) := by norm_num
+  have h4 : (0 : ℝ) ≤ 5 - 3 / 2 * 3 := by norm_num
+  simp [r12, Arith.stdDev, Arith.variance, Arith.mean, Kahan.value, h3, XR.sqrt_fin_of_nonneg h4]
+  norm_num
+
+theorem twoSided_ok_XR (l a b : XR) (h : Cmp.lt b a = false) :
+    (intervalOfKind (Confidence.twoSided l) a b : Outcome (Err XR) (Interval XR)) =
+      .ok (.twoSided a b) := by
+  simp [intervalOfKind, Interval.new, liftI, h]
+
+/-- an `Ok` of `Harmonic::ci_mean` on `XR` whose upper bound is `+∞`: the reciprocal-space interval
+    `[-97/2, 103/2]` (critical value 100) reaches below zero -/
+theorem harmonic_ok_pinf : ∃ r : ℝ, 0 < r ∧
+    Harmonic.ciMean (fun _ => XR.fin 100 : Crit XR) ⟨r12⟩ (.twoSided (XR.fin 0.95)) =
+      .ok (.twoSided (XR.fin r) XR.pinf) := by
+  have hq := conf95_probOk_XR
+  unfold Harmonic.ciMean
+  rw [show (Confidence.twoSided (XR.fin 0.95)).flipped = .twoSided (XR.fin 0.95) from rfl,
+    Arith.ciMean_eq _ r12 _ (by simp [r12]) (by rw [r12_mean]; rfl) (by rw [r12_stdDev]; rfl) hq]
+  have h2 : Real.sqrt ((2:ℕ):ℝ) ≠ 0 := (Real.sqrt_pos.mpr (by norm_num)).ne'
+  simp only [XR.up_eq, XR.down_eq, r12_mean, r12_stdDev, Arith.critOf, XR.ofNat_eq,
+    show r12.count = 2 from rfl, XR.sqrt_fin_of_nonneg (show (0:ℝ) ≤ ((2:ℕ):ℝ) by norm_num),
+    XR.div_fin_fin_of_ne _ h2, XR.mul_fin_fin, XR.sub_fin_fin, XR.add_fin_fin,
+    Interval.lowX, Interval.highX]
+  have hs : Real.sqrt (1 / 2) / Real.sqrt ((2:ℕ):ℝ) = 1 / 2 := by
+    rw [← Real.sqrt_div (by norm_num), show ((1:ℝ) / 2 / ((2:ℕ):ℝ)) = (1 / 2) ^ 2 by norm_num,
+      Real.sqrt_sq (by norm_num)]
+  rw [hs, show (3:ℝ) / 2 - 100 * (1 / 2) = -97 / 2 by norm_num,
+    show (3:ℝ) / 2 + 100 * (1 / 2) = 103 / 2 by norm_num]
+  refine ⟨2 / 103, by norm_num, ?_⟩
+  have hlt : ¬ ((103:ℝ) / 2 < -97 / 2) := by norm_num
+  have hpos : (0:ℝ) < 103 / 2 := by norm_num
+  have hneg : ¬ ((0:ℝ) < -97 / 2) := by norm_num
+  have e1 : Harmonic.recipBound (XR.fin (103 / 2)) = XR.fin (2 / 103) := by
+    rw [XR.recipBound_fin, if_pos hpos]; norm_num
+  have e2 : Harmonic.recipBound (XR.fin (-97 / 2)) = XR.pinf := by
+    rw [XR.recipBound_fin, if_neg hneg]
+  rw [twoSided_ok_XR _ _ _ (by simpa using hlt)]
+  simp only [Outcome.bind_ok, e1, e2]
+  exact twoSided_ok_XR _ _ _ (by simp)
 
 end Examples
 
